@@ -15,6 +15,36 @@ Mode: lattice sweep (complete products, nothing sampled). Sub-checks ("sub" of a
              real CTMCCredit grid (INVERSION on the symmetric grid, BINARYSEARCHTREEADAPTED on the asymmetric one, as
              scripts/benchmark/first_to_default.py does), the default-time underlyings on scripted jump paths.
              Quick: exponential margins, plus (first copula, unequal threshold tuple) plain Levy margins and reinit margins.
+ forms       argument forms and the caller's containers (no chain is built; same cases in both tiers unless stated):
+             underlying         one case per (number of names 1..3, form of the threshold vector in list | tuple | list of
+                                np.float64 | float64 array | int list | int64 array): NthDefaultTimes (every index) and
+                                DefaultTimeNthUnderlying (every name) built, through every route of "underlying" below,
+                                from ONE caller's container that is refilled for each rung of a ladder of threshold vectors
+                                (base, lower, all names tied, reversed; integer-valued for the int forms) and finally
+                                overwritten with -7; only then is every underlying evaluated, against the thresholds it was
+                                BUILT with. Paths: built from the thresholds alone (no jump; every single jump of
+                                {1.25 a_k, 0.75 a_k, 0}^d; ordered pairs of full corners; one path of 257 jumps whose last
+                                jump is the first below the thresholds). The underlyings of every second rung are used once
+                                before the refill. Container compared with a snapshot (type, dtype, values) after
+                                construction / use.
+             underlying-scalar  DefaultTime with the threshold as float | np.float64 | 0-d array | int | np.int64.
+             pricer-1d          one case per 1-d model spec: CFLevyModel (_theta, survival_probability positional / keyword,
+                                cds_spread, implied_cds_spread, implied_cds_threshold) and the 1-d CTMCCredit (axes,
+                                truncations, origin, both flags) with the threshold as np.float64 | 0-d array | (threshold
+                                -1: int | np.int64) against the Python float; maturity as int | np.float64 | vector (vectorised
+                                = element-wise); recovery as np.float64 | int 0 | vector; pv / spread / h0 as numpy scalars.
+             pricer-copula      one case per (copula model spec, Levy / exponential margins): CFLevyCopulaModel (all public
+                                methods, positional and keyword, vector of maturities / recoveries) and the d-dimensional
+                                CTMCCredit with the thresholds as list | tuple | list of np.float64 | float64 array, on the
+                                unequal tuple, the tied tuple and (closed form only) (-1, -2, -3); ONE container per form
+                                refilled between the calls (answer = that of the numbers it holds at the time of the call);
+                                container compared with a snapshot after the calls; the grids built from it re-read after the
+                                caller overwrote it.
+             payoff             per interest rate {0.02, 0.05}: CDS / Product with recovery, spread, maturity, notional as
+                                float | np.float64 | int where integer-valued, evaluated at default times given as float |
+                                np.float64 | 0-d array | int (integer times on either side of the maturity), against (v).
+             Oracles: absolute for the underlyings and the payoff ((v)); for the pricers and the grid "same answer as the usual
+             form" (list of Python floats / Python float, itself judged by (i)-(iv)) within 16 ulps (axes: exactly).
 
 Oracles
  (i)   box rate.  Sum over the chain states with at least one coordinate below its threshold of the state's jump rate
@@ -49,27 +79,37 @@ Histories (the objects of (i)-(v) are also judged AFTER public operations on the
 object carries / the model it holds at the time of the call; the violation key ends in ":after=<op>+<op>"):
  payoff      ONE CDS object, priced before each operation; every sequence of <= 2 operations of
              PAYOFF_OPS = spread re-assigned | recovery_rate re-assigned | a second CDS with other values built and used in
-             between | deepcopy | update(LOG) + process(times, path) (the hooks Product calls): pointwise (v) after each
-             history; the expectation / implied-spread part after the histories that change spread and / or recovery.
+             between | deepcopy | copy.copy | dill round trip (the copy replaces the payoff; the ORIGINAL is re-parametrised
+             and used after the copy was taken) | update(LOG) + process(times, path) (the hooks Product calls): pointwise (v)
+             after each history; the expectation / implied-spread part after the histories that change spread and / or recovery.
  pricer      ONE CFLevyModel / CFLevyCopulaModel, used at every threshold before each operation; every sequence of <= 2 of
              PRICER_OPS = public attribute `model` / `levy_copula_model` re-assigned to a second model (1-d: same family,
              donor parameters; copula: margins in reversed order) | a second pricer on the other model used in between |
-             deepcopy | all public methods called: theta, survival probability and par spread must be those of the model held
-             now (reference: nu.integrate, checked against quadrature by (ii) / ref_rectangle_mass).
+             deepcopy | copy.copy | dill round trip (the copy replaces the pricer; the original is re-assigned the other model
+             after the copy was taken) | all public methods called: theta, survival probability and par spread must be those
+             of the model held now (reference: nu.integrate, checked against quadrature by (ii) / ref_rectangle_mass).
  chain       ONE chain on ONE credit grid with the shared model object, rates read before each operation; CHAIN_OPS = a second
              chain built on the same grid object | initialisation(product) (CDS on the (first-to-)default time, what
              Engine.price does) | deepcopy | reset_one_simulation_cost + reset_sampling_cost | a chain for another threshold
              built in between | the sampler draws 16 states (global numpy generator seeded and restored around the draw; the
-             drawn values are not observed). 1-d: every sequence of <= 2 operations on fresh objects at the first threshold
-             of the symmetric flag, every single operation elsewhere; d >= 2: one cumulative history (the operations in
-             menu order, (i) re-judged after each) on the unequal threshold tuple (0.6, 0.5[, 0.4]) of every model / h / flag.
+             drawn values are not observed) | copy.copy | dill round trip (what a pool worker receives). 1-d: every sequence
+             of <= 2 operations on fresh objects at the first threshold of the symmetric flag, every single operation
+             elsewhere; d >= 2: one cumulative history (the operations in menu order, (i) re-judged after each) on the unequal
+             threshold tuple (0.6, 0.5[, 0.4]) of every model / h / flag.
  underlying  each default-time class through: _value_log; value; value after update(LOG); value after update(LOG) then
-             update(IDENDITY); value of the deepcopy of an updated object; Product.underlying_value (keywords), fresh and
-             after Product.update(LOG) on a deepcopy (d >= 2: the last five on the paths of full corner jumps only). A second
+             update(IDENDITY); value of the deepcopy / copy.copy / dill round trip of an updated object (the original switched
+             back afterwards); Product.underlying_value (keywords), fresh, after Product.update(LOG) on a deepcopy, and on the
+             dill round trip of that (d >= 2: all but the first two on the paths of full corner jumps only). A second
              object of the class with other thresholds (1-d: between a+eps and -h; d >= 2: the reversed tuple) is evaluated in
-             between on every path and judged against its own thresholds.
+             between on every path and judged against its own thresholds. Every route compares the times / path arrays it
+             hands over with copies taken before the call (the callee must not write into them).
 
 Outside the alphabet (statement silent), counted and never an alarm:
+ * argument forms the pinned tree rejects or for which nothing is promised: integer thresholds in CFLevyCopulaModel (TypeError
+   in the tail integrals) and in CTMCCredit lists (beyond l for every model of the alphabet); float32 / object arrays; (1, n)
+   and (n, 1) threshold arrays; a list as maturity; vectors of default times in CDS.evaluate; a 0-d array handed over as a
+   SCALAR threshold and modified by the caller afterwards (DefaultTime keeps the object it is given);
+ * a jump exactly equal to a threshold (no chain state is: the threshold is a cell boundary);
  * thresholds not strictly inside (l, -h): the credit axis l, a-eps, a+eps, -h is not increasing there (VG default, h = 0.1,
    f <= 0.5); same exclusion as C13;
  * spreads that no threshold in [-10, -h0] attains (finite-activity models with a small negative mass);
@@ -107,8 +147,10 @@ RULE = (
     "complete product of (model spec incl. reinit twins x spatial step) and, inside each, of thresholds {0.4,0.5,0.6}*l (all "
     "tuples in d=2,3) x symmetric/asymmetric credit grid x recovery {0,0.4} x maturity {1,5} x spread {50,300bp}; every "
     "sequence of <= 2 operations of the payoff / pricer / 1-d chain menus and one cumulative history of the copula chain menu "
-    "on re-used objects; a case is non-trivial when at least one chain default-rate sum or closed-form intensity was compared "
-    "with its reference; distinct = distinct case dict"
+    "on re-used objects (menus include copy.copy / deepcopy / dill round trip); sub 'forms': complete product of (class taking "
+    "thresholds or numbers x legal argument form x ladder of threshold vectors) with the caller's container refilled after "
+    "construction / between calls; a case is non-trivial when at least one chain default-rate sum, closed-form intensity or "
+    "default time was compared with its reference; distinct = distinct case dict"
 )
 ASSUMPTIONS = [
     "the pathos pool that MarkovChainLevyCopula's constructor uses for the small-jump diffusion matrix of infinite-variation "
@@ -117,8 +159,10 @@ ASSUMPTIONS = [
     "reference rectangle mass shares the copula function and the margins' integrate with the library (checked in C09/C11); "
     "in one dimension the reference is quadrature of the margin's own density",
     "thresholds are fractions of the grid's left truncation; h in {0.1, 0.05}; dimension <= 3",
-    "histories: at most two operations per object (copula chain: the six operations of the menu once each, in menu order); the "
+    "histories: at most two operations per object (copula chain: the eight operations of the menu once each, in menu order); the "
     "sampler's draw inside a chain history uses numpy's global generator, seeded before and restored after the draw",
+    "forms: the ladders of the default-time underlyings are fixed threshold vectors (-0.2, -0.3, -0.25 and multiples; -2, -4, -3 "
+    "for the integer forms), independent of any grid; the pricers' form comparisons are differential (usual form = reference)",
 ]
 CHUNK = 8
 
@@ -127,6 +171,7 @@ HS = [0.1, 0.05]
 RECOVERIES = [0.0, 0.4]
 MATURITIES = [1.0, 5.0]
 SPREADS = [0.005, 0.03]
+IMPLIED_SPREADS = SPREADS + [0.0, -0.01]  # implied_cds_spread brackets negative spreads on purpose (noisy Monte-Carlo pv)
 INF = math.inf
 RTOL = 1e-9
 RTOL_Q = 1e-8
@@ -222,6 +267,19 @@ def cases(tier):
                 for sym in (True, False):
                     out.append({"sub": "chain-copula", "model": dict(cm, exp=False), "h": h, "fracs": FRACS[::-1][:len(cm["margins"])],
                                 "symmetric": sym})
+    # ------------------------------------------------------------------ argument forms (cheap: no chain is built)
+    for form in SCALAR_FORMS:
+        out.append({"sub": "forms", "part": "underlying-scalar", "form": form})
+    for d in (1, 2, 3):
+        for form in VECTOR_FORMS:
+            out.append({"sub": "forms", "part": "underlying", "d": d, "form": form})
+    for ms in specs:
+        out.append({"sub": "forms", "part": "pricer-1d", "model": ms})
+    for exp in (True, False):
+        for cm in cms:
+            out.append({"sub": "forms", "part": "pricer-copula", "model": dict(cm, exp=exp)})
+    for r in (0.02, 0.05):
+        out.append({"sub": "forms", "part": "payoff", "r": r})
     return out
 
 
@@ -365,9 +423,19 @@ def _tau_menu(T):
             ("after-maturity", 2.0 * T), ("never", INF)]
 
 
-PAYOFF_OPS = ("spread", "recovery", "other-object", "deepcopy", "engine-hooks")
+PAYOFF_OPS = ("spread", "recovery", "other-object", "deepcopy", "copy", "dill", "engine-hooks")
 PAYOFF_EXPECTATION_HISTORIES = ((), ("spread",), ("recovery",), ("spread", "recovery"), ("recovery", "spread"))
 NOTIONAL = 10_000.0
+
+
+def _dill_round_trip(obj):
+    """what a pathos pool worker receives"""
+    import dill
+
+    return dill.loads(dill.dumps(obj))
+
+
+COPIERS = {"copy": copy.copy, "deepcopy": copy.deepcopy, "dill": _dill_round_trip}
 
 
 def _histories(ops, depth):
@@ -481,8 +549,11 @@ def _check_cds_payoff(sh, obs, df, r, icls, thetas, pricer_spread):
                         oth = CDS(recovery_rate=_other(RECOVERIES, R), spread=_other(SPREADS, s), maturity=_other(MATURITIES, T),
                                   discounting=lambda t: math.exp(-2.0 * r * t))
                         float(oth.evaluate(0.5 * T)), float(oth.evaluate(INF))
-                    elif op == "deepcopy":
-                        cds = copy.deepcopy(cds)
+                    elif op in COPIERS:  # the copy replaces the payoff; the ORIGINAL is re-parametrised after the copy was taken
+                        original, cds = cds, COPIERS[op](cds)
+                        original.spread = _other(SPREADS, s)
+                        original.recovery_rate = _other(RECOVERIES, R)
+                        float(original.evaluate(0.5 * T))
                     elif op == "engine-hooks":  # what Product.update / Product.underlying_value call on the payoff
                         cds.update(ProcessRepresentation.LOG)
                         cds.process(np.array([0.0, T]), np.array([0.0, -0.1]))
@@ -523,7 +594,7 @@ def _check_formulas(sh, obs, comp, icls, pricer, a, theta, r, is_copula):
                          {"a": a_arg, "R": R, "theta": theta, "got": s0})
         if r is None:
             continue
-        for T, s in itertools.product(MATURITIES, SPREADS):
+        for T, s in itertools.product(MATURITIES, IMPLIED_SPREADS):
             dl, fl = _legs(theta, r, R, T)
             pv = dl - s * fl
             try:
@@ -558,7 +629,7 @@ def _check_monotone(sh, comp, icls, d, theta_of):
             sh.cls("theta-strictly-increasing" if th_lo < th_hi else "theta-flat-between-alphabet-points")
 
 
-PRICER_OPS = ("reassign", "other-pricer", "deepcopy", "formulas")
+PRICER_OPS = ("reassign", "other-pricer", "deepcopy", "copy", "dill", "formulas")
 
 
 def _pricer_histories(sh, obs, comp, icls, attr, make_pricer, models, expected, a_list, r, is_copula, scales=None):
@@ -568,7 +639,8 @@ def _pricer_histories(sh, obs, comp, icls, attr, make_pricer, models, expected, 
     probability and par spread must be those of the model it holds NOW.
       reassign      pricer.<attr> = the other model (public attribute re-assigned, as `payoff.spread = s2`)
       other-pricer  a second pricer of the class on the other model is built and used in between
-      deepcopy      the pricer is replaced by its deepcopy
+      deepcopy / copy / dill   the pricer is replaced by its copy.deepcopy / copy.copy / dill round trip; the original is then
+                    re-assigned the other model and used (the copy must still answer for the model it was copied with)
       formulas      every public method of the pricer is called in between"""
     R = RECOVERIES[-1]
     name = "first_to_default_par_spread" if is_copula else "cds_spread"
@@ -589,8 +661,10 @@ def _pricer_histories(sh, obs, comp, icls, attr, make_pricer, models, expected, 
                     setattr(p, attr, models[which])
                 elif op == "other-pricer":
                     use(make_pricer(models[1 - which]))
-                elif op == "deepcopy":
-                    p = copy.deepcopy(p)
+                elif op in COPIERS:  # the copy replaces the pricer; the ORIGINAL gets the other model after the copy was taken
+                    original, p = p, COPIERS[op](p)
+                    setattr(original, attr, models[1 - which])
+                    use(original)
                 elif op == "formulas":
                     a = arg(a_list[0])
                     float(p.survival_probability(a, MATURITIES[0]))
@@ -622,7 +696,7 @@ def _pricer_histories(sh, obs, comp, icls, attr, make_pricer, models, expected, 
                          {"history": list(hist)})
 
 
-CHAIN_OPS = ("second-chain-same-grid", "initialisation", "deepcopy", "reset-cost", "other-chain", "sample")
+CHAIN_OPS = ("second-chain-same-grid", "initialisation", "deepcopy", "reset-cost", "other-chain", "sample", "copy", "dill")
 
 
 def _credit_product(model, a, is_copula):
@@ -641,7 +715,9 @@ def _chain_op(op, proc, grid, make_chain, make_other_grid, product):
     """one operation of CHAIN_OPS on the chain `proc` living on `grid`; returns the (chain, grid) to be read next.
       second-chain-same-grid  a second chain is built on the SAME grid object (and the same model object) and replaces the first
       initialisation          proc.initialisation(product) - what Engine.price does before simulating
-      deepcopy                the chain is replaced by its deepcopy (its own copy of grid, model and sampler)
+      deepcopy / dill         the chain is replaced by its deepcopy / dill round trip (its own copy of grid, model and sampler;
+                              dill is what the workers of the engines' pool receive)
+      copy                    the chain is replaced by its copy.copy (sharing grid, model and sampler)
       reset-cost              proc.reset_one_simulation_cost() and the sampler's reset_sampling_cost()
       other-chain             a chain of the class for ANOTHER threshold (other grid object, same model object) is built, read
                               (intensity) and dropped in between
@@ -651,8 +727,8 @@ def _chain_op(op, proc, grid, make_chain, make_other_grid, product):
         return make_chain(grid), grid
     if op == "initialisation":
         proc.initialisation(product)
-    elif op == "deepcopy":
-        proc = copy.deepcopy(proc)
+    elif op in COPIERS:
+        proc = COPIERS[op](proc)
         grid = proc.grid
     elif op == "reset-cost":
         proc.reset_one_simulation_cost()
@@ -681,12 +757,33 @@ def _cell(grid, st):
     return grid.middle(grid.left_point(st), val), grid.middle(val, grid.right_point(st))
 
 
+class _CallerArrayModified(Exception):
+    """an entry point wrote into the arrays (times, path) the caller handed over"""
+
+
+def _guarded(call, expo):
+    """route: (times, log jump path) -> value; the callee gets exp(path) when `expo`; the arrays it gets are compared with
+    copies taken before the call (the callee must not modify the caller's arrays)"""
+
+    def fun(t, lp):
+        x = np.exp(lp) if expo else lp
+        t0, x0 = t.copy(), x.copy()
+        out = call(t, x)
+        if not (np.array_equal(t, t0) and np.array_equal(x, x0)):
+            raise _CallerArrayModified()
+        return out
+
+    return fun
+
+
 def _underlying_routes(make_und):
-    """the ways a default time is obtained from ONE kind of underlying object: name -> (callable(times, log jump path), object).
+    """the ways a default time is obtained from ONE kind of underlying object: name -> callable(times, log jump path).
     Besides the two entry points on a fresh object: the object after Underlying.update(LOG) (what Product.update does for a
     log-represented process: `value` becomes `_value_log`), after update(LOG) then update(IDENDITY) (a product re-used with a
-    process of the other representation), the deepcopy of an updated object (what the path managers / pool workers get), and
-    the engine's route Product.underlying_value (keyword arguments), fresh and after Product.update(LOG) on a deepcopy."""
+    process of the other representation), the deepcopy / copy.copy / dill round trip of an updated object (what the path
+    managers / pool workers get; the original is switched back to IDENDITY after the copy was taken), and the engine's route
+    Product.underlying_value (keyword arguments): fresh, after Product.update(LOG) on a deepcopy, and on the dill round trip of
+    an updated product."""
     from rpylib.process.process import ProcessRepresentation as PR
     from rpylib.product.payoff import CDS
     from rpylib.product.product import Product
@@ -697,21 +794,85 @@ def _underlying_routes(make_und):
     u2 = make_und()
     u2.update(PR.LOG)
     u2.update(PR.IDENDITY)
-    u3 = make_und()
-    u3.update(PR.LOG)
-    u3 = copy.deepcopy(u3)
+    copies = {}
+    for kind, copier in COPIERS.items():
+        u = make_und()
+        u.update(PR.LOG)
+        copies[kind] = copier(u)
+        if kind != "copy":  # (the shallow copy's `value` is the original's bound method: the original stays as it is)
+            u.update(PR.IDENDITY)
     T = MATURITIES[0]
     p4 = Product(payoff_underlying=make_und(), maturity=T, notional=NOTIONAL,
                  payoff=CDS(recovery_rate=RECOVERIES[-1], spread=SPREADS[0], maturity=T, discounting=lambda t: math.exp(-0.02 * t)))
     p5 = copy.deepcopy(p4)
     p5.update(PR.LOG)
-    return [("_value_log", lambda t, lp: u0._value_log(t, None, lp)),
-            ("value", lambda t, lp: u0.value(t, None, np.exp(lp))),
-            ("update(LOG).value", lambda t, lp: u1.value(t, None, lp)),
-            ("update(LOG)+update(IDENDITY).value", lambda t, lp: u2.value(t, None, np.exp(lp))),
-            ("update(LOG)+deepcopy.value", lambda t, lp: u3.value(t, None, lp)),
-            ("Product.underlying_value", lambda t, lp: p4.underlying_value(times=t, path=np.exp(lp), jump_path=np.exp(lp))),
-            ("Product.update(LOG).underlying_value", lambda t, lp: p5.underlying_value(times=t, path=lp, jump_path=lp))]
+    p6 = _dill_round_trip(p5)
+    return [("_value_log", _guarded(lambda t, x: u0._value_log(t, None, x), False)),
+            ("value", _guarded(lambda t, x: u0.value(t, None, x), True)),
+            ("update(LOG).value", _guarded(lambda t, x: u1.value(t, None, x), False)),
+            ("update(LOG)+update(IDENDITY).value", _guarded(lambda t, x: u2.value(t, None, x), True)),
+            ("update(LOG)+deepcopy.value", _guarded(lambda t, x: copies["deepcopy"].value(t, None, x), False)),
+            ("Product.underlying_value", _guarded(lambda t, x: p4.underlying_value(times=t, path=x, jump_path=x), True)),
+            ("Product.update(LOG).underlying_value", _guarded(lambda t, x: p5.underlying_value(times=t, path=x, jump_path=x), False)),
+            ("update(LOG)+copy.value", _guarded(lambda t, x: copies["copy"].value(t, None, x), False)),
+            ("update(LOG)+dill.value", _guarded(lambda t, x: copies["dill"].value(t, None, x), False)),
+            ("Product.update(LOG)+dill.underlying_value", _guarded(lambda t, x: p6.underlying_value(times=t, path=x, jump_path=x), False))]
+
+
+def _run_scripted(sh, obs, d, seqs, unds, full=None, scalar=False):
+    """Scripted jump paths. seqs: sequences of jumps (each jump a d-vector of log jump sizes); unds: list of (class name, which
+    (index of the default / of the name), thresholds (d floats), routes of _underlying_routes, key tag). Every entry is
+    evaluated on every path through its first two routes, through the others on the paths made of jumps of `full` only (on
+    every path when full is None). scalar: the class takes the 1-d path of the single name. Oracle (plain loop): time of the
+    first jump STRICTLY below the threshold of the name; n-th smallest over the names for the n-th default."""
+    thrs = []
+    for u in unds:
+        if list(u[2]) not in thrs:
+            thrs.append(list(u[2]))
+    for seq in seqs:
+        n = len(seq)
+        all_routes = full is None or all(c in full for c in seq)
+        times = np.array([0.0] + [0.3 * (j + 1) for j in range(n)] + [0.3 * n + 0.5])
+        jumps = np.array(seq, dtype=float).reshape(n, d).T if n else np.zeros((d, 0))  # (d, n)
+        cum = np.cumsum(jumps, axis=1)
+        logp = np.concatenate((np.zeros((d, 1)), cum, cum[:, -1:] if n else np.zeros((d, 1))), axis=1)
+        firsts_of = {}
+        for thr in thrs:
+            if np.any(np.abs(jumps - np.array(thr)[:, None]) < 1e-9):
+                continue  # log / exp round trip of `value` next to a threshold: outside the alphabet
+            firsts = []
+            for k in range(d):
+                f = next((j for j in range(n) if jumps[k, j] < thr[k]), None)
+                firsts.append(INF if f is None else float(times[f + 1]))
+            firsts_of[tuple(thr)] = firsts
+        for name, which, thr, routes, tag in unds:
+            firsts = firsts_of.get(tuple(thr))
+            if firsts is None:
+                sh.count("excluded_jump_at_threshold")
+                continue
+            exp_ = sorted(firsts)[which - 1] if name == "NthDefaultTimes" else firsts[which - 1]
+            entry_ok = True
+            for k_route, (via, fun) in enumerate(routes if all_routes else routes[:2]):
+                if k_route >= 2 and not entry_ok:
+                    break  # wrong already on the fresh object: reported once, not once per route
+                shown = jumps.tolist() if n <= 4 else f"{n} jumps, the last ones {jumps[:, -2:].tolist()}"
+                try:
+                    got = float(fun(times, logp[0] if scalar else logp))
+                except _CallerArrayModified:
+                    entry_ok = False
+                    sh.violation(f"C19:default-time:{name}:caller-path-modified:via={via}{tag}",
+                                 f"{name}({thr}, {which}).{via} wrote into the times / path arrays of its caller (jumps {shown})",
+                                 {"a": thr, "which": which, "jumps": jumps[:, :8].tolist(), "n_jumps": n})
+                    continue
+                obs.add(got)
+                sh.count("evaluations")
+                sh.count("scripted_paths")
+                if got != exp_:
+                    entry_ok = False
+                    sh.violation(f"C19:default-time:{name}:ne-first-jump-below-threshold:via={via}{tag}",
+                                 f"{name}({thr}, {which}).{via} on jumps {shown} at times {times[:6].tolist()} = {got}, expected {exp_}",
+                                 {"a": thr, "which": which, "jumps": jumps[:, :8].tolist(), "n_jumps": n, "times": times[:9].tolist(),
+                                  "got": got, "expected": exp_})
 
 
 def _scripted_default_times_1d(sh, obs, grid, a, o, thorough):
@@ -719,38 +880,13 @@ def _scripted_default_times_1d(sh, obs, grid, a, o, thorough):
 
     ax = [float(x) for x in grid.axes[0]]
     states = [x for k, x in enumerate(ax) if k != o and abs(x - a) > 1e-9]
-    routes = _underlying_routes(lambda: DefaultTime(default_level=a))
     # a second object of the class with another threshold (between the states a+eps and -h), used in between on every path
     a_b = 0.5 * (ax[2] + ax[3])
-    und_b = DefaultTime(default_level=a_b)
-    for n in range(0, (3 if thorough else 2) + 1):  # n = 0: the path without any jump
-        times = np.array([0.0] + [0.3 * (j + 1) for j in range(n)] + [0.3 * n + 0.5])
-        for seq in itertools.product(states, repeat=n):
-            logp = np.concatenate(([0.0], np.cumsum(seq), [float(np.sum(seq))]))
-            first = next((j for j, x in enumerate(seq) if x < a), None)
-            exp_ = INF if first is None else float(times[first + 1])
-            first_b = next((j for j, x in enumerate(seq) if x < a_b), None)
-            exp_b = INF if first_b is None else float(times[first_b + 1])
-            entry_ok = True
-            for k_route, (via, fun) in enumerate(routes):
-                if k_route >= 2 and not entry_ok:
-                    break  # wrong already on the fresh object: reported once, not once per route
-                got = float(fun(times, logp))
-                obs.add(got)
-                sh.count("evaluations")
-                sh.count("scripted_paths")
-                if got != exp_:
-                    entry_ok = False
-                    sh.violation(f"C19:default-time:DefaultTime:ne-first-jump-below-threshold:via={via}",
-                                 f"DefaultTime({a}).{via} on jumps {list(seq)} at times {times.tolist()} = {got}, expected {exp_}",
-                                 {"a": a, "jumps": list(seq), "times": times.tolist(), "got": got, "expected": exp_})
-                if via == "_value_log":
-                    got_b = float(und_b._value_log(times, None, logp))
-                    sh.count("evaluations")
-                    if got_b != exp_b:
-                        sh.violation("C19:default-time:DefaultTime:ne-first-jump-below-threshold:via=_value_log:second-object",
-                                     f"DefaultTime({a_b})._value_log on jumps {list(seq)} at times {times.tolist()} = {got_b}, expected {exp_b}",
-                                     {"a": a_b, "jumps": list(seq), "times": times.tolist(), "got": got_b, "expected": exp_b})
+    unds = [("DefaultTime", 1, [a], _underlying_routes(lambda: DefaultTime(default_level=a)), ""),
+            ("DefaultTime", 1, [a_b], _underlying_routes(lambda: DefaultTime(default_level=a_b))[:1], ":second-object")]
+    seqs = [tuple((x,) for x in seq) for n in range(0, (3 if thorough else 2) + 1)  # n = 0: the path without any jump
+            for seq in itertools.product(states, repeat=n)]
+    _run_scripted(sh, obs, 1, seqs, unds, full=None, scalar=True)
 
 
 def _one_dim(sh, case, obs):
@@ -1155,15 +1291,16 @@ def _scripted_default_times_nd(sh, obs, grid, a, d):
     a_rev = a[::-1]
     o = [int(c) for c in grid.origin_coordinate]
     axes = [[float(x) for x in ax] for ax in grid.axes]
-    # (name, index, thresholds, routes). The last objects of each class carry OTHER thresholds (the reversed tuple) and are used
-    # in between on every path: a leak of one object's thresholds into another object of the class shows on either
-    unds = [("NthDefaultTimes", n, a, _underlying_routes(lambda: NthDefaultTimes(default_levels=list(a), index=n))) for n in range(1, d + 1)]
-    unds += [("DefaultTimeNthUnderlying", k, a, _underlying_routes(lambda: DefaultTimeNthUnderlying(default_levels=list(a), underlying_index=k)))
+    # (name, index, thresholds, routes, tag). The last objects of each class carry OTHER thresholds (the reversed tuple) and are
+    # used in between on every path: a leak of one object's thresholds into another object of the class shows on either
+    unds = [("NthDefaultTimes", n, a, _underlying_routes(lambda: NthDefaultTimes(default_levels=list(a), index=n)), "") for n in range(1, d + 1)]
+    unds += [("DefaultTimeNthUnderlying", k, a, _underlying_routes(lambda: DefaultTimeNthUnderlying(default_levels=list(a), underlying_index=k)), "")
              for k in range(1, d + 1)]
     if a_rev != a:
-        unds.append(("NthDefaultTimes", 1, a_rev, _underlying_routes(lambda: NthDefaultTimes(default_levels=list(a_rev), index=1))[:1]))
+        unds.append(("NthDefaultTimes", 1, a_rev, _underlying_routes(lambda: NthDefaultTimes(default_levels=list(a_rev), index=1))[:1],
+                     ":second-object"))
         unds.append(("DefaultTimeNthUnderlying", 1, a_rev,
-                     _underlying_routes(lambda: DefaultTimeNthUnderlying(default_levels=list(a_rev), underlying_index=1))[:1]))
+                     _underlying_routes(lambda: DefaultTimeNthUnderlying(default_levels=list(a_rev), underlying_index=1))[:1], ":second-object"))
     # menu: the path without any jump; every chain state as a single jump; every ordered pair of "corner" states (each
     # coordinate just below / just above its threshold, or no move)
     singles = [tuple(axes[k][i] for k, i in enumerate(idx)) for idx in itertools.product(*[range(len(ax)) for ax in axes])
@@ -1175,44 +1312,10 @@ def _scripted_default_times_nd(sh, obs, grid, a, d):
         corner_axis.append([below, above, 0.0])
     corners = [c for c in itertools.product(*corner_axis) if any(x != 0.0 for x in c)]
     seqs = [()] + [(s,) for s in singles] + list(itertools.product(corners, repeat=2))
-    # the routes through update() / deepcopy / Product concern the state of the underlying object, not the path: they are
+    # the routes through update() / copies / Product concern the state of the underlying object, not the path: they are
     # evaluated on the sequences of at most two "full corner" jumps (every coordinate just below or just above its threshold)
     full = set(c for c in corners if all(x != 0.0 for x in c))
-    for seq in seqs:
-        all_routes = all(c in full for c in seq)
-        n = len(seq)
-        times = np.array([0.0] + [0.3 * (j + 1) for j in range(n)] + [0.3 * n + 0.5])
-        jumps = np.array(seq, dtype=float).T if n else np.zeros((d, 0))  # (d, n)
-        cum = np.cumsum(jumps, axis=1)
-        logp = np.concatenate((np.zeros((d, 1)), cum, cum[:, -1:] if n else np.zeros((d, 1))), axis=1)
-        firsts_of = {}
-        for thr in (a, a_rev):
-            if np.any(np.abs(jumps - np.array(thr)[:, None]) < 1e-9):
-                continue  # log / exp round trip of `value` next to a threshold: outside the alphabet
-            firsts = []
-            for k in range(d):
-                f = next((j for j in range(n) if jumps[k, j] < thr[k]), None)
-                firsts.append(INF if f is None else float(times[f + 1]))
-            firsts_of[tuple(thr)] = firsts
-        for name, which, thr, routes in unds:
-            firsts = firsts_of.get(tuple(thr))
-            if firsts is None:
-                continue
-            exp_ = sorted(firsts)[which - 1] if name == "NthDefaultTimes" else firsts[which - 1]
-            second = ":second-object" if thr is a_rev else ""
-            entry_ok = True
-            for k_route, (via, fun) in enumerate(routes if all_routes else routes[:2]):
-                if k_route >= 2 and not entry_ok:
-                    break  # wrong already on the fresh object: reported once, not once per route
-                got = float(fun(times, logp))
-                obs.add(got)
-                sh.count("evaluations")
-                sh.count("scripted_paths")
-                if got != exp_:
-                    entry_ok = False
-                    sh.violation(f"C19:default-time:{name}:ne-first-jump-below-threshold:via={via}{second}",
-                                 f"{name}({thr}, {which}).{via} on jumps {jumps.tolist()} at times {times.tolist()} = {got}, expected {exp_}",
-                                 {"a": thr, "which": which, "jumps": jumps.tolist(), "times": times.tolist(), "got": got, "expected": exp_})
+    _run_scripted(sh, obs, d, seqs, unds, full=full)
 
 
 def _chain_copula(sh, case, obs):
@@ -1367,10 +1470,439 @@ def _chain_copula(sh, case, obs):
 
 
 # ----------------------------------------------------------------------------------------------------------------------
+# argument forms: the same thresholds / numbers in every legal form; the caller's containers before and after
+# ----------------------------------------------------------------------------------------------------------------------
+
+VECTOR_FORMS = ("list", "tuple", "list-of-np.float64", "float64-array", "int-list", "int64-array")
+PRICER_VECTOR_FORMS = ("list", "tuple", "list-of-np.float64", "float64-array")  # compared with a fresh list per call
+SCALAR_FORMS = ("float", "np.float64", "0-d-array", "int", "np.int64")
+MUTABLE_FORMS = ("list", "list-of-np.float64", "float64-array", "int-list", "int64-array")
+FORM_RTOL = 16 * np.finfo(float).eps  # a vectorised and a scalar evaluation of the same expression
+
+
+def _container(form, values):
+    """the numbers `values` as the caller's container of that form"""
+    if form == "list":
+        return [float(x) for x in values]
+    if form == "tuple":
+        return tuple(float(x) for x in values)
+    if form == "list-of-np.float64":
+        return [np.float64(x) for x in values]
+    if form == "float64-array":
+        return np.array([float(x) for x in values], dtype=np.float64)
+    if form == "int-list":
+        return [int(x) for x in values]
+    if form == "int64-array":
+        return np.array([int(x) for x in values], dtype=np.int64)
+    raise ValueError(form)
+
+
+def _refill(form, buf, values):
+    """the caller writes other numbers into ITS container (in place where the form is mutable, else a new object)"""
+    if form not in MUTABLE_FORMS:
+        return _container(form, values)
+    buf[:] = _container(form, values)
+    return buf
+
+
+def _scalar(form, x):
+    if form == "float":
+        return float(x)
+    if form == "np.float64":
+        return np.float64(x)
+    if form == "0-d-array":
+        return np.array(float(x))
+    if form == "int":
+        return int(x)
+    if form == "np.int64":
+        return np.int64(x)
+    raise ValueError(form)
+
+
+def _snapshot(buf):
+    """type, dtype and content of a caller's container"""
+    if isinstance(buf, np.ndarray):
+        return ("ndarray", str(buf.dtype), buf.shape, [float(x) for x in np.ravel(buf)])
+    if isinstance(buf, (list, tuple)):
+        return (type(buf).__name__, [(type(x).__name__, float(x)) for x in buf])
+    return (type(buf).__name__, float(buf))
+
+
+def _ladder(d, integer):
+    """threshold vectors of d names: a base, a lower rung, all names tied, the names in reversed order. With the corner jumps
+    1.25 a (below) / 0.75 a (above) of a rung, every other rung and the poison (-7) time at least one path differently."""
+    base = [-2.0, -4.0, -3.0][:d] if integer else [-0.20, -0.30, -0.25][:d]
+    lower = [-3.0, -6.0, -5.0][:d] if integer else [1.5 * x for x in base]
+    rungs = [base, lower, [-1.0 if integer else -0.12] * d, base[::-1]]
+    out = []
+    for r in rungs:
+        if r not in out:
+            out.append(r)
+    return out
+
+
+def _corner_seqs(thr):
+    """path menu built from the thresholds alone: no jump; every single jump of {1.25 a_k, 0.75 a_k, 0}^d; every ordered pair of
+    full corners; one path of 257 jumps (beyond 256) hovering above the thresholds whose LAST jump takes every name below"""
+    d = len(thr)
+    corners = [c for c in itertools.product(*[[1.25 * a, 0.75 * a, 0.0] for a in thr]) if any(x != 0.0 for x in c)]
+    full = [c for c in corners if all(x != 0.0 for x in c)]
+    above = tuple(0.75 * a for a in thr)
+    back = tuple(-x for x in above)
+    below = tuple(1.25 * a for a in thr)
+    seqs = [()] + [(c,) for c in corners] + list(itertools.product(full, repeat=2)) + [tuple([above, back] * 128 + [below])]
+    return seqs, set(full) | {back}
+
+
+def _und_classes(d):
+    from rpylib.product.underlying import DefaultTimeNthUnderlying, NthDefaultTimes
+
+    out = [("NthDefaultTimes", n, (lambda levels, n=n: NthDefaultTimes(default_levels=levels, index=n))) for n in range(1, d + 1)]
+    out += [("DefaultTimeNthUnderlying", k, (lambda levels, k=k: DefaultTimeNthUnderlying(default_levels=levels, underlying_index=k)))
+            for k in range(1, d + 1)]
+    return out
+
+
+def _forms_underlying(sh, case, obs):
+    """Every default-time class that takes a threshold vector, thresholds handed over in the case's form. The caller keeps ONE
+    container (where the form is mutable), fills it for every rung of a ladder, builds the underlyings of the rung from it
+    (through every route of _underlying_routes), and finally overwrites it with yet other thresholds; only then are the
+    underlyings evaluated, each against the thresholds it was BUILT with (array-like terms are taken at construction). The
+    underlyings of every second rung are also used once before the container is refilled. The container is compared with a
+    snapshot after construction and after use (the callee must not write into it)."""
+    d, form = int(case["d"]), case["form"]
+    integer = form.startswith("int")
+    mutable = form in MUTABLE_FORMS
+    tag = f":form={form}" + (":caller-refilled-its-container-afterwards" if mutable else "")
+    sh.cls(f"names={d}")
+    sh.cls("form-" + form)
+    rungs = _ladder(d, integer)
+    t0 = np.array([0.0, 0.5])
+    p0 = np.zeros((d, 2))
+    buf = _container(form, rungs[0])
+    built = []
+    for i, rung in enumerate(rungs):
+        if i:
+            buf = _refill(form, buf, rung)
+        snap = _snapshot(buf)
+        unds = []
+        for name, which, make in _und_classes(d):
+            try:
+                unds.append((name, which, [float(x) for x in rung], _underlying_routes(lambda: make(buf)), tag))
+            except Exception as e:
+                sh.violation(f"C19:forms:{name}:raises-{type(e).__name__}:form={form}", f"{name}({buf!r}, {which}): {type(e).__name__}: {e}",
+                             {"levels": [float(x) for x in rung], "form": form})
+        if i % 2:  # used before the caller refills its container: the path without any jump
+            for name, which, thr, routes, _ in unds:
+                got = float(routes[0][1](t0, p0))
+                sh.count("evaluations")
+                if got != INF:
+                    sh.violation(f"C19:default-time:{name}:ne-first-jump-below-threshold:via=_value_log{tag}",
+                                 f"{name}({thr}, {which}) on the path without any jump = {got}", {"a": thr, "which": which, "got": got})
+        sh.count("evaluations")
+        if _snapshot(buf) != snap:
+            sh.violation(f"C19:forms:default-time-underlyings:caller-container-modified:form={form}",
+                         f"the caller's thresholds {snap} read {_snapshot(buf)} after the underlyings were built from them / used",
+                         {"before": snap, "after": _snapshot(buf)})
+            buf = _refill(form, buf, rung)
+        built.append((rung, unds))
+    buf = _refill(form, buf, [-7.0] * d)  # the caller re-uses its container for something else
+    sh.nontriv()
+    for rung, unds in built:
+        seqs, full = _corner_seqs(rung)
+        try:
+            _run_scripted(sh, obs, d, seqs, unds, full=full)
+        except Exception as e:
+            sh.violation(f"C19:forms:default-time-underlyings:raises-{type(e).__name__}:form={form}",
+                         f"thresholds {rung} given as {form}: {type(e).__name__}: {e}", {"levels": rung, "form": form})
+    sh.outcome(("forms-underlying", d, form))
+    sh.sample({"sub": "forms", "part": "underlying", "names": d, "form": form, "ladder": rungs, "container_now": _snapshot(buf)})
+
+
+def _forms_underlying_scalar(sh, case, obs):
+    """DefaultTime: the threshold as Python float / numpy scalar / 0-d array / (integer-valued thresholds) Python int / numpy
+    integer. (A 0-d array handed over as `default_level: float` is not modified afterwards: the scalar classes keep the object
+    they are given, and the statement says nothing about a number that is a mutable array.)"""
+    from rpylib.product.underlying import DefaultTime
+
+    form = case["form"]
+    integer = form in ("int", "np.int64")
+    tag = f":form={form}"
+    sh.cls("names=1")
+    sh.cls("form-" + form)
+    sh.nontriv()
+    for (a,) in _ladder(1, integer):
+        x = _scalar(form, a)
+        snap = _snapshot(x)
+        try:
+            unds = [("DefaultTime", 1, [float(a)], _underlying_routes(lambda: DefaultTime(default_level=x)), tag)]
+            seqs, full = _corner_seqs([float(a)])
+            _run_scripted(sh, obs, 1, seqs, unds, full=full, scalar=True)
+        except Exception as e:
+            sh.violation(f"C19:forms:DefaultTime:raises-{type(e).__name__}:form={form}", f"DefaultTime({x!r}): {type(e).__name__}: {e}",
+                         {"level": float(a), "form": form})
+        sh.count("evaluations")
+        if _snapshot(x) != snap:
+            sh.violation(f"C19:forms:DefaultTime:caller-container-modified:form={form}", f"the caller's threshold {snap} reads {_snapshot(x)} afterwards",
+                         {"before": snap, "after": _snapshot(x)})
+    sh.outcome(("forms-underlying-scalar", form))
+
+
+def _same(sh, obs, key, what, got, ref, rtol=FORM_RTOL, atol=0.0, detail=None):
+    """differential oracle: the answer for another legal form of an argument = the answer for the usual form (itself judged by
+    (ii), (iv), (v)); arrays element-wise"""
+    g = np.ravel(np.asarray(got, dtype=float))
+    r = np.ravel(np.asarray(ref, dtype=float))
+    sh.count("evaluations")
+    sh.count("form_comparisons")
+    obs.add(*g.tolist())
+    if g.shape != r.shape or not all(core.close(x, y, rtol=rtol, atol=atol) for x, y in zip(g, r)):
+        sh.violation(key, f"{what} = {g.tolist()!r}, the usual form of the arguments gives {r.tolist()!r}",
+                     dict(detail or {}, got=g.tolist(), usual=r.tolist()))
+        return False
+    return True
+
+
+def _axes_of(grid):
+    """what a chain reads of a grid: axes, truncations, position of the origin"""
+    o = grid.origin_coordinate
+    o = getattr(o, "value", o)
+    return ([[float(x) for x in ax] for ax in grid.axes], [[float(x) for x in t] for t in grid.truncations],
+            [int(c) for c in np.ravel(np.asarray(o))])
+
+
+def _forms_pricer_1d(sh, case, obs):
+    """CFLevyModel and the 1-d CTMCCredit: threshold as float (usual) / np.float64 / 0-d array / int / np.int64 (integer-valued
+    thresholds: -1, the un-restricted closed form only unless l < -1); maturity as int / np.float64 / vector of maturities
+    (vectorised = element-wise); recovery as np.float64 / int 0 / vector; present value and spread as numpy scalars."""
+    from rpylib.grid import spatial as S
+    from rpylib.numerical.closedform.cflevymodel import CFLevyModel
+
+    spec = case["model"]
+    icls = "d=1:" + _mclass(spec)
+    model = A.make_model(spec)
+    cf = CFLevyModel(model)
+    r = float(spec["r"]) if spec.get("exp") else None
+    h = HS[0]
+    l, rr = (float(x) for x in S.compute_truncation(model=model, h=h))
+    a_list = [float(fr * l) for fr in FRACS if l < fr * l < -h] + [-1.0]
+    sh.nontriv()
+    for a in a_list:
+        inside = l < a < -h
+        R, T, s = RECOVERIES[-1], MATURITIES[-1], SPREADS[0]
+        try:
+            th = float(cf._theta(a))
+            sp = [float(cf.survival_probability(a, t)) for t in MATURITIES]
+            cs = [float(cf.cds_spread(level_a=a, recovery_rate=x)) for x in RECOVERIES]
+            pv = None
+            if r is not None:
+                dl, fl = _legs(th, r, R, T)
+                pv = dl - s * fl
+                si = float(cf.implied_cds_spread(pv=pv, level_a=a, recovery_rate=R, maturity=T))
+            grids = {sym: _axes_of(S.CTMCCredit(h=h, level_a=a, model=model, symmetric_grid=sym)) for sym in (True, False)} if inside else {}
+        except Exception as e:
+            sh.violation(f"C19:forms:CFLevyModel:raises-{type(e).__name__}:usual-form:{icls}", f"{type(e).__name__}: {e}", {"a": a})
+            continue
+        sh.outcome(("forms-theta", float(th).hex()))
+        for form in SCALAR_FORMS[1:]:
+            if form in ("int", "np.int64") and a != int(a):
+                continue
+            x = _scalar(form, a)
+            snap = _snapshot(x)
+            key = lambda what: f"C19:forms:CFLevyModel.{what}:ne-usual-form:threshold-as-{form}:{icls}"
+            try:
+                _same(sh, obs, key("_theta"), f"_theta({x!r})", cf._theta(x), th, detail={"a": a})
+                _same(sh, obs, key("survival_probability"), f"survival_probability({x!r}, t)", [cf.survival_probability(x, t) for t in MATURITIES], sp,
+                      detail={"a": a})
+                _same(sh, obs, key("survival_probability"), f"survival_probability(level_a={x!r}, t=t)",
+                      [cf.survival_probability(level_a=x, t=t) for t in MATURITIES], sp, detail={"a": a})
+                _same(sh, obs, key("cds_spread"), f"cds_spread({x!r}, R)", [cf.cds_spread(x, y) for y in RECOVERIES], cs, detail={"a": a})
+                if pv is not None:
+                    _same(sh, obs, key("implied_cds_spread"), f"implied_cds_spread(pv, {x!r}, R, T)", cf.implied_cds_spread(pv, x, R, T), si,
+                          atol=1e-13, detail={"a": a})
+                for sym, ref in grids.items():
+                    sh.count("evaluations")
+                    got = _axes_of(S.CTMCCredit(h=h, level_a=x, model=model, symmetric_grid=sym))
+                    if got != ref:
+                        sh.violation(f"C19:forms:CTMCCredit:ne-usual-form:threshold-as-{form}:d=1",
+                                     f"CTMCCredit(h={h}, level_a={x!r}, symmetric={sym}) has axes {got[0]}, with the Python float {ref[0]}",
+                                     {"a": a, "model": icls, "got": got, "usual": ref})
+            except Exception as e:
+                sh.violation(f"C19:forms:CFLevyModel:raises-{type(e).__name__}:threshold-as-{form}:{icls}", f"{type(e).__name__}: {e}", {"a": a})
+            sh.count("evaluations")
+            if _snapshot(x) != snap:
+                sh.violation(f"C19:forms:CFLevyModel:caller-container-modified:threshold-as-{form}", f"{snap} reads {_snapshot(x)} afterwards", {"a": a})
+        # the other arguments, the threshold in its usual form
+        key = lambda what, arg: f"C19:forms:CFLevyModel.{what}:ne-usual-form:{arg}:{icls}"
+        try:
+            ts = np.array(MATURITIES)
+            _same(sh, obs, key("survival_probability", "t-as-int"), "survival_probability(a, int t)",
+                  [cf.survival_probability(a, int(t)) for t in MATURITIES], sp, detail={"a": a})
+            _same(sh, obs, key("survival_probability", "t-as-np.float64"), "survival_probability(a, np.float64 t)",
+                  [cf.survival_probability(a, np.float64(t)) for t in MATURITIES], sp, detail={"a": a})
+            _same(sh, obs, key("survival_probability", "t-as-vector"), "survival_probability(a, vector of maturities)",
+                  cf.survival_probability(a, ts), sp, detail={"a": a})
+            sh.count("evaluations")
+            if ts.tolist() != MATURITIES:
+                sh.violation("C19:forms:CFLevyModel.survival_probability:caller-container-modified:t-as-vector", f"maturities read {ts.tolist()} afterwards", None)
+            Rs = np.array(RECOVERIES)
+            _same(sh, obs, key("cds_spread", "R-as-vector"), "cds_spread(a, vector of recoveries)", cf.cds_spread(a, Rs), cs, detail={"a": a})
+            _same(sh, obs, key("cds_spread", "R-as-np.float64"), "cds_spread(a, np.float64 R)", [cf.cds_spread(a, np.float64(y)) for y in RECOVERIES], cs,
+                  detail={"a": a})
+            _same(sh, obs, key("cds_spread", "R-as-int"), "cds_spread(a, 0)", cf.cds_spread(a, int(RECOVERIES[0])), cs[0], detail={"a": a})
+            sh.count("evaluations")
+            if Rs.tolist() != RECOVERIES:
+                sh.violation("C19:forms:CFLevyModel.cds_spread:caller-container-modified:R-as-vector", f"recoveries read {Rs.tolist()} afterwards", None)
+            if pv is not None:
+                for nm, v in (("np.float64", np.float64(pv)), ("0-d-array", np.array(pv))):
+                    _same(sh, obs, key("implied_cds_spread", "pv-as-" + nm), f"implied_cds_spread({nm} pv, int T)",
+                          cf.implied_cds_spread(pv=v, level_a=a, recovery_rate=np.float64(R), maturity=int(T)), si, atol=1e-13, detail={"a": a})
+            if inside and cs[-1] > 0.0:
+                ai = float(cf.implied_cds_threshold(cds_spread=cs[-1], recovery_rate=R, h0=1e-6))
+                _same(sh, obs, key("implied_cds_threshold", "spread-as-np.float64"), "implied_cds_threshold(np.float64 spread)",
+                      cf.implied_cds_threshold(np.float64(cs[-1]), np.float64(R), np.float64(1e-6)), ai, atol=1e-13, detail={"a": a})
+        except Exception as e:
+            sh.violation(f"C19:forms:CFLevyModel:raises-{type(e).__name__}:other-arguments:{icls}", f"{type(e).__name__}: {e}", {"a": a})
+
+
+def _forms_pricer_copula(sh, case, obs):
+    """CFLevyCopulaModel and the d-dimensional CTMCCredit: the threshold vector as list (usual) / tuple / list of numpy scalars /
+    float64 array; thresholds: the unequal tuple, the tied tuple, the integer-valued vector (-1, -2, -3) (closed form only: it
+    is below l). The caller's container is compared with a snapshot after every call; ONE container per mutable form is
+    refilled with each threshold vector in turn (the answer must be that of the numbers it holds at the time of the call), and
+    the credit grid built from it must not change when the container is refilled afterwards."""
+    from rpylib.grid import spatial as S
+    from rpylib.numerical.closedform.cflevycopula import CFLevyCopulaModel
+
+    spec = case["model"]
+    icls = _cclass(spec)
+    model = _make_copula_model(spec)
+    d = model.dimension()
+    cf = CFLevyCopulaModel(model)
+    r = 0.02 if spec.get("exp") else None
+    h = HS[0]
+    l, rr = (float(x) for x in S.compute_truncation(model=model, h=h))
+    vectors = [[float(f * l) for f in FRACS[::-1][:d]], [float(FRACS[1] * l)] * d, [-1.0, -2.0, -3.0][:d]]
+    R, T, s = RECOVERIES[-1], MATURITIES[-1], SPREADS[0]
+    sh.nontriv()
+    usual = []
+    for a in vectors:
+        inside = all(l < x < -h for x in a)
+        try:
+            th = float(cf._theta(list(a)))
+            ref = {"_theta": th, "survival_probability": [float(cf.survival_probability(list(a), t)) for t in MATURITIES],
+                   "first_to_default_par_spread": [float(cf.first_to_default_par_spread(levels_a=list(a), recovery_rate=x)) for x in RECOVERIES]}
+            if r is not None:
+                dl, fl = _legs(th, r, R, T)
+                ref["pv"] = dl - s * fl
+                ref["implied_cds_spread"] = float(cf.implied_cds_spread(pv=ref["pv"], level_a=list(a), recovery_rate=R, maturity=T))
+            ref["grids"] = {sym: _axes_of(S.CTMCCredit(h=h, level_a=list(a), model=model, symmetric_grid=sym)) for sym in (True, False)} if inside else {}
+            usual.append(ref)
+        except Exception as e:
+            sh.violation(f"C19:forms:CFLevyCopulaModel:raises-{type(e).__name__}:usual-form:{icls}", f"{type(e).__name__}: {e}", {"a": a})
+            return
+        sh.outcome(("forms-theta", float(th).hex()))
+    for form in PRICER_VECTOR_FORMS:
+        mutable = form in MUTABLE_FORMS
+        buf = _container(form, vectors[0])
+        kept = []  # (grid built from the caller's container, reference)
+        for i, (a, ref) in enumerate(zip(vectors, usual)):
+            if i:
+                buf = _refill(form, buf, a)  # one container, refilled
+            snap = _snapshot(buf)
+            key = lambda what: (f"C19:forms:CFLevyCopulaModel.{what}:ne-usual-form:thresholds-as-{form}"
+                                f"{':container-refilled-between-calls' if mutable and i else ''}:{icls}")
+            try:
+                _same(sh, obs, key("_theta"), f"_theta({buf!r})", cf._theta(buf), ref["_theta"], detail={"a": a})
+                _same(sh, obs, key("survival_probability"), f"survival_probability({buf!r}, t)", [cf.survival_probability(buf, t) for t in MATURITIES],
+                      ref["survival_probability"], detail={"a": a})
+                _same(sh, obs, key("survival_probability"), f"survival_probability(levels_a={buf!r}, t=vector of maturities)",
+                      cf.survival_probability(levels_a=buf, t=np.array(MATURITIES)), ref["survival_probability"], detail={"a": a})
+                _same(sh, obs, key("first_to_default_par_spread"), f"first_to_default_par_spread({buf!r}, R)",
+                      [cf.first_to_default_par_spread(buf, x) for x in RECOVERIES], ref["first_to_default_par_spread"], detail={"a": a})
+                _same(sh, obs, key("first_to_default_par_spread"), f"first_to_default_par_spread({buf!r}, vector of recoveries)",
+                      cf.first_to_default_par_spread(buf, np.array(RECOVERIES)), ref["first_to_default_par_spread"], detail={"a": a})
+                if r is not None:
+                    _same(sh, obs, key("implied_cds_spread"), f"implied_cds_spread(np.float64 pv, {buf!r}, R, int T)",
+                          cf.implied_cds_spread(np.float64(ref["pv"]), buf, R, int(T)), ref["implied_cds_spread"], atol=1e-13, detail={"a": a})
+                for sym, gref in ref["grids"].items():
+                    g = S.CTMCCredit(h=h, level_a=buf, model=model, symmetric_grid=sym)
+                    kept.append((g, gref, sym, list(a)))
+                    sh.count("evaluations")
+                    if _axes_of(g) != gref:
+                        sh.violation(f"C19:forms:CTMCCredit:ne-usual-form:thresholds-as-{form}:d={d}",
+                                     f"CTMCCredit(h={h}, level_a={buf!r}, symmetric={sym}) has axes {_axes_of(g)[0]}, with a list {gref[0]}",
+                                     {"a": a, "model": icls, "got": _axes_of(g), "usual": gref})
+            except Exception as e:
+                sh.violation(f"C19:forms:CFLevyCopulaModel:raises-{type(e).__name__}:thresholds-as-{form}:{icls}", f"{type(e).__name__}: {e}", {"a": a})
+            sh.count("evaluations")
+            if _snapshot(buf) != snap:
+                sh.violation(f"C19:forms:CFLevyCopulaModel:caller-container-modified:thresholds-as-{form}",
+                             f"the caller's thresholds {snap} read {_snapshot(buf)} after the calls", {"a": a, "model": icls})
+                buf = _refill(form, buf, a)
+        buf = _refill(form, buf, [-7.0] * d)
+        for g, gref, sym, a in kept:  # the grids built from the container, after the caller has refilled it
+            sh.count("evaluations")
+            if _axes_of(g) != gref:
+                sh.violation(f"C19:forms:CTMCCredit:thresholds-not-taken-at-construction:thresholds-as-{form}:d={d}",
+                             f"CTMCCredit(level_a={a}, symmetric={sym}) has axes {_axes_of(g)[0]} after the caller refilled its container; they were {gref[0]}",
+                             {"a": a, "model": icls, "got": _axes_of(g), "at_construction": gref})
+
+
+def _forms_payoff(sh, case, obs):
+    """CDS payoff and Product: recovery / spread / maturity / notional as float (usual) / np.float64 / int where integer-valued;
+    the default time as float / np.float64 / 0-d array / int (integer-valued times on either side of the maturity). Oracle:
+    the stated leg formulas, as in (v)."""
+    from rpylib.product.payoff import CDS
+    from rpylib.product.product import Product
+    from rpylib.product.underlying import DefaultTime
+
+    r = float(case["r"])
+    sh.nontriv()
+    df = lambda t: math.exp(-r * t)
+    num_forms = {"float": float, "np.float64": np.float64, "int-where-integer": lambda x: int(x) if float(x) == int(x) else float(x)}
+    tau_forms = {"float": float, "np.float64": np.float64, "0-d-array": lambda x: np.array(float(x)), "int": int}
+    for (fname, conv), R, T, s in itertools.product(num_forms.items(), RECOVERIES, MATURITIES, SPREADS):
+        try:
+            cds = CDS(recovery_rate=conv(R), spread=conv(s), maturity=conv(T), discounting=df)
+            product = Product(payoff_underlying=DefaultTime(default_level=-0.2), payoff=cds, maturity=conv(T), notional=conv(NOTIONAL))
+            df_T = float(df(T))
+            menu = [(c, tau) for c, tau in _tau_menu(T)] + [("integer-time", 1.0), ("integer-time", 2.0), ("integer-time", 7.0)]
+            for tcls, tau in menu:
+                if tau == T:
+                    continue  # default exactly at the maturity: outside the alphabet
+                exp_ = _pv_of_tau(tau, r, R, T, s)
+                for tname, tconv in tau_forms.items():
+                    if tname == "int" and (math.isinf(tau) or tau != int(tau)):
+                        continue
+                    x = tconv(tau)
+                    for via, got in (("CDS.evaluate", float(cds.evaluate(x)) * df_T), ("Product(CDS)", float(product(x)) / NOTIONAL * df_T)):
+                        obs.add(got)
+                        sh.count("evaluations")
+                        sh.count("form_comparisons")
+                        if not core.close(got, exp_, rtol=RTOL, atol=1e-13):
+                            sh.violation(f"C19:forms:{via}:ne-leg-formulas:numbers-as-{fname}:default-time-as-{tname}:{tcls}",
+                                         f"CDS(R={conv(R)!r}, s={conv(s)!r}, T={conv(T)!r}) {via}({x!r})*df(T) = {got!r}, legs formula = {exp_!r}",
+                                         {"R": R, "T": T, "spread": s, "tau": tau, "r": r, "got": got, "expected": exp_})
+        except Exception as e:
+            sh.violation(f"C19:forms:CDS:raises-{type(e).__name__}:numbers-as-{fname}", f"{type(e).__name__}: {e}", {"R": R, "T": T, "spread": s})
+    sh.outcome(("forms-payoff", r))
+
+
+_FORM_PARTS = {"underlying": _forms_underlying, "underlying-scalar": _forms_underlying_scalar, "pricer-1d": _forms_pricer_1d,
+               "pricer-copula": _forms_pricer_copula, "payoff": _forms_payoff}
+
+
+def _forms(sh, case, obs):
+    sh.cls("forms-" + case["part"])
+    _FORM_PARTS[case["part"]](sh, case, obs)
+
+
+# ----------------------------------------------------------------------------------------------------------------------
 # driver
 # ----------------------------------------------------------------------------------------------------------------------
 
-_SUBS = {"one-dim": _one_dim, "cf-copula": _cf_copula, "chain-copula": _chain_copula}
+_SUBS = {"one-dim": _one_dim, "cf-copula": _cf_copula, "chain-copula": _chain_copula, "forms": _forms}
 
 
 def check_case(sh, case):
